@@ -18,7 +18,10 @@ C18 — io_uring ops complete once with the direct syscall's result; teardown is
   size, index shift and initial counter: `cqe_exactly_once` / `one_cqe_per_sqe` (safety: the reaped (user_data,
   res) multiset is a sub-multiset of the owed one, no request twice, nothing invented), `cqe_complete_at_quiescence`
   (kernel quiet + ring reaped empty ⇒ equality), `link_chain_order` (+ `link_deps_spec`, `link_within_batch`,
-  `owed_result`), `wake_protocol`.
+  `owed_result`), `wake_protocol`; and BELOW call granularity (split-reap model `krun2`: the entry is read through
+  the returned reference after arbitrary kernel steps): `cqe_exactly_once_split`, `one_cqe_per_sqe_split` — true
+  since /repo bc63d9e (`get_next_cqe` releases the slot on the next call), false before
+  (`orig_reap_reference_outlives_slot`, the finding of this model).
 The `orig_*` theorems are witnesses on the model of the code before the C18 repairs.
 -/
 import TinyVerif.Gen.SqeCtors
@@ -222,7 +225,7 @@ def kreached (K : Kern) (flags k kc c cc : Nat) (ops : List KOp) : KSt :=
 theorem kreached_inv (K : Kern) {k kc c cc : Nat} (p : Params k kc c cc) (flags : Nat) (ops : List KOp) :
     KInv K (kreached K flags k kc c cc ops) ∧ RInv k kc c cc (kreached K flags k kc c cc ops).ring :=
   ⟨krun_kinv ops (kinv_init K flags k kc c cc),
-   krun_rinv ops ⟨_, _, _, inv_init flags k kc c cc p.hk p.hkc p.hc p.hcc⟩⟩
+   krun_rinv ops ⟨[], _, _, _, inv_init flags k kc c cc p.hk p.hkc p.hc p.hcc⟩⟩
 
 /-- **cqe_exactly_once** (safety).  ASSUMED: the kernel contract, i.e. the kernel moves only by the steps
 `consume` / `complete` / `flushOvf` / `idle` of Model/Ring.lean (in-order consumption, exactly one completion
@@ -247,7 +250,7 @@ theorem cqe_exactly_once (K : Kern) {k kc c cc : Nat} (p : Params k kc c cc) (fl
     (kreached K flags k kc c cc ops).ring.flushed <+: (kreached K flags k kc c cc ops).ring.filled := by
   obtain ⟨h, hr⟩ := kreached_inv K p flags ops
   obtain ⟨a, b, c', d⟩ := safety_state h hr
-  obtain ⟨inq, unpub, cinq, hi⟩ := hr
+  obtain ⟨hold, inq, unpub, cinq, hi⟩ := hr
   exact ⟨a, b, c', d, ⟨inq, hi.flushed_eq.symm⟩, ⟨unpub, hi.filled_eq.symm⟩⟩
 
 /-- **cqe_complete_at_quiescence**: under the same contract, when the kernel has nothing pending (`KQuiet`:
@@ -351,39 +354,117 @@ theorem wake_protocol (K : Kern) (cd : Ring.Code) (s : KSt) :
   · intro hw n
     simp only [kstep, kConsumeK, hw, if_true]
 
-/-! ### FINDING: below call granularity exactly-once is FALSE for the code as it is
+/-! ### below call granularity: the reference `get_next_cqe` returns (split-reap model `krun2`)
 
-`get_next_cqe` advances the shared completion head before it returns the reference (`completion_queue.advance(1)`
-precedes `cqe.as_ref()`), so the kernel may refill the slot while the caller still holds the unread reference.
-With the completion ring full and one completion on the overflow list, a kernel flush between the call and the
-read makes the caller read the NEW completion through the old reference, and reap it again later: one operation
-never completes for the application, another completes twice.  Reproduced on the real code: simulated kernel
-(`kring … : rb : o 1 : rr …` in harness/c18) and the running kernel (`refrace`: the overflow flush of a safe
-`io_uring_enter(fd, 0, 0, GETEVENTS)` between `get_next_cqe()` and the read; and with no system call at all in
-between — the kernel posts from task work while the thread is in user mode — in the `overflow` run). -/
+FOUND with this model and REPAIRED in /repo (bc63d9e): `get_next_cqe` used to advance the shared completion head
+before it returned the reference (`completion_queue.advance(1)` preceded `cqe.as_ref()`), so the kernel could refill
+the slot while the caller still held the unread reference: one operation's completion lost, another delivered
+twice (`orig_reap_reference_outlives_slot`, on `Code.eagerRelease`; it was reproduced on the real code with the
+simulated kernel, and on the running kernel both with a safe `io_uring_enter(GETEVENTS)` between call and read and
+with no system call at all in between).  The current code releases the slot on the NEXT call (`release_pending`);
+for it exactly-once holds below call granularity too: `cqe_exactly_once_split`, `one_cqe_per_sqe_split`. -/
 
-/-- reading through the reference at once is the atomic reap the theorems above are about -/
-theorem split_reap_is_reap (K : Kern) (cd : Ring.Code) (s : KSt) :
-    (krun2 K cd ⟨s, none⟩ [.reapBegin, .reapRead]).1 = ⟨(kstep K cd s .reap).1, none⟩ :=
-  split_reap_refines K cd s
+/-- the state reached by an arbitrary interleaving in which the application may read the returned entry LATER than
+`get_next_cqe` returns (`reapBegin` … any kernel steps … `reapRead`) -/
+def kreached2 (K : Kern) (flags k kc c cc : Nat) (ops : List KOp2) : KSt2 :=
+  (krun2 K .fixed (kinit2 flags k kc c cc) ops).1
 
-/-- **reap_reference_outlives_slot**: the witness (ring of 1 submission / 2 completion entries, three operations
-with user_data 1, 2, 3 and results 7, 8, 9; the third completion overflows): the application reads (3, 9),
-(2, 8), (3, 9) — (1, 7) is lost, (3, 9) is delivered twice — so the reaped pairs are NOT a sub-multiset of the
-owed ones, although every kernel step obeys the contract. -/
-theorem reap_reference_outlives_slot :
-    reapedPairs (krun2 nopKern .fixed ⟨kinit 0 0 1 0 0, none⟩
+/-- the (user_data, res) pairs the application actually read through the references, in order -/
+def readPairs (s : KSt2) : List (Nat × Nat) := s.readLog.map fun e => (cqeUd e.val, cqeRes e.val)
+
+theorem kreached2_inv (K : Kern) {k kc c cc : Nat} (p : Params k kc c cc) (flags : Nat) (ops : List KOp2) :
+    K2Inv K k kc c cc (kreached2 K flags k kc c cc ops) :=
+  krun2_inv ops (k2inv_init K flags k kc c cc p.hk p.hkc p.hc p.hcc)
+
+/-- **cqe_exactly_once_split**: under the kernel contract, with reads through the returned reference delayed
+arbitrarily (any kernel steps between `get_next_cqe` returning and the read): what the application READ is, entry
+by entry, what `get_next_cqe` handed out (a prefix of it; all of it when no reference is outstanding), and what was
+handed out satisfies everything `cqe_exactly_once` says — no request twice, nothing invented, a sub-multiset of the
+completions owed. -/
+theorem cqe_exactly_once_split (K : Kern) {k kc c cc : Nat} (p : Params k kc c cc) (flags : Nat) (ops : List KOp2) :
+    (kreached2 K flags k kc c cc ops).readLog <+: (kreached2 K flags k kc c cc ops).k.ring.reaped ∧
+    ((kreached2 K flags k kc c cc ops).held = none →
+      (kreached2 K flags k kc c cc ops).readLog = (kreached2 K flags k kc c cc ops).k.ring.reaped) ∧
+    (kreached2 K flags k kc c cc ops).k.ring.reaped.map Ent.val =
+      (reapedSeq (kreached2 K flags k kc c cc ops).k).map
+        (expWord K (kreached2 K flags k kc c cc ops).k.ring.consumed (kreached2 K flags k kc c cc ops).k.deps) ∧
+    (reapedSeq (kreached2 K flags k kc c cc ops).k).Nodup ∧
+    (∀ q ∈ reapedSeq (kreached2 K flags k kc c cc ops).k, q < (kreached2 K flags k kc c cc ops).k.ring.consumed.length) ∧
+    (∃ rest, ((kreached2 K flags k kc c cc ops).readLog.map Ent.val ++ rest).Perm
+      (owed K (kreached2 K flags k kc c cc ops).k)) := by
+  have h := kreached2_inv K p flags ops
+  generalize kreached2 K flags k kc c cc ops = s at *
+  obtain ⟨h1, h2, hr⟩ := h.readLog_prefix
+  obtain ⟨a, b, c', rest, d⟩ := safety_state h.kinv hr
+  refine ⟨h1, h2, a, b, c', ?_⟩
+  obtain ⟨t, ht⟩ := h1
+  refine ⟨t.map Ent.val ++ rest, ?_⟩
+  rw [← List.append_assoc, ← List.map_append, ht]
+  exact d
+
+/-- **one_cqe_per_sqe_split**: `one_cqe_per_sqe` for delayed reads — the pairs the application actually read are a
+sub-multiset of {(e.user_data, result of the direct call for e) | e filled and flushed}; at quiescence, with no
+reference outstanding, exactly that multiset. -/
+theorem one_cqe_per_sqe_split (K : Kern) {k kc c cc : Nat} (p : Params k kc c cc) (flags : Nat) (ops : List KOp2)
+    (hnl : ∀ e ∈ (kreached2 K flags k kc c cc ops).k.ring.filled, K.link e.val = false) :
+    (∃ rest, (readPairs (kreached2 K flags k kc c cc ops) ++ rest).Perm
+      (flushedPairs K (kreached2 K flags k kc c cc ops).k)) ∧
+    (KQuiet (kreached2 K flags k kc c cc ops).k → (kreached2 K flags k kc c cc ops).held = none →
+      (step .fixed (kreached2 K flags k kc c cc ops).k.ring .reap).2 = .noCqe →
+      (readPairs (kreached2 K flags k kc c cc ops)).Perm (flushedPairs K (kreached2 K flags k kc c cc ops).k)) := by
+  have h := kreached2_inv K p flags ops
+  generalize kreached2 K flags k kc c cc ops = s at *
+  obtain ⟨h1, h2, hr⟩ := h.readLog_prefix
+  obtain ⟨⟨rest, d⟩, q⟩ := pairs_state h.kinv hr hnl
+  constructor
+  · obtain ⟨t, ht⟩ := h1
+    refine ⟨t.map (fun e => (cqeUd e.val, cqeRes e.val)) ++ rest, ?_⟩
+    rw [← List.append_assoc, readPairs, ← List.map_append, ht]
+    exact d
+  · intro hq hn he
+    rw [readPairs, h2 hn]
+    exact q hq he
+
+/-- the atomic `reap` of the contract model is the split reap with the read at once -/
+theorem split_reap_is_reap (K : Kern) (cd : Ring.Code) (s : KSt2) (hh : s.held = none) :
+    (kstep2 K cd s (.k .reap)).1 = (krun2 K cd s [.reapBegin, .reapRead]).1 ∧
+    (kstep2 K cd s (.k .reap)).1.k = (kstep K cd s.k .reap).1 := by
+  obtain ⟨sk, held, rl⟩ := s
+  simp only at hh
+  subst hh
+  simp only [krun2, kstep2, kstep, step_reap, kReapBegin, kReapRead, KOp.isApp, Option.isSome_none, Bool.false_and]
+  cases h : getNextCqe cd sk.ring with
+  | panic r1 => exact ⟨rfl, rfl⟩
+  | ok r1 o =>
+    cases o with
+    | none => exact ⟨rfl, rfl⟩
+    | some i => exact ⟨rfl, rfl⟩
+
+/-- **orig_reap_reference_outlives_slot** — before /repo bc63d9e (`Code.eagerRelease`): ring of 1 submission / 2
+completion entries, three operations with user_data 1, 2, 3 and results 7, 8, 9; the third completion overflows; a
+kernel overflow flush between `get_next_cqe()` returning and the read: the application reads (3, 9), (2, 8), (3, 9)
+— (1, 7) is lost, (3, 9) is delivered twice — NOT a sub-multiset of the owed pairs, although every kernel step
+obeys the contract.  On the current code the same operations read (1, 7), (2, 8), (3, 9) (the flush finds no room
+until the next `get_next_cqe` call releases the slot). -/
+theorem orig_reap_reference_outlives_slot :
+    readPairs (krun2 nopKern .eagerRelease (kinit2 0 0 1 0 0)
       [.k (.get (sqeWord 1 0 7)), .k .flush, .k (.consume 1), .k (.complete 0),
        .k (.get (sqeWord 2 0 8)), .k .flush, .k (.consume 1), .k (.complete 0),
        .k (.get (sqeWord 3 0 9)), .k .flush, .k (.consume 1), .k (.complete 0),
-       .reapBegin, .k (.flushOvf 1), .reapRead, .k .reap, .k .reap, .k .reap]).1.k = [(3, 9), (2, 8), (3, 9)] ∧
-    flushedPairs nopKern (krun2 nopKern .fixed ⟨kinit 0 0 1 0 0, none⟩
+       .reapBegin, .k (.flushOvf 1), .reapRead, .k .reap, .k .reap, .k .reap]).1 = [(3, 9), (2, 8), (3, 9)] ∧
+    flushedPairs nopKern (krun2 nopKern .eagerRelease (kinit2 0 0 1 0 0)
       [.k (.get (sqeWord 1 0 7)), .k .flush, .k (.consume 1), .k (.complete 0),
        .k (.get (sqeWord 2 0 8)), .k .flush, .k (.consume 1), .k (.complete 0),
        .k (.get (sqeWord 3 0 9)), .k .flush, .k (.consume 1), .k (.complete 0),
        .reapBegin, .k (.flushOvf 1), .reapRead, .k .reap, .k .reap, .k .reap]).1.k = [(1, 7), (2, 8), (3, 9)] ∧
-    ¬ ∃ rest, ([(3, 9), (2, 8), (3, 9)] ++ rest : List (Nat × Nat)).Perm [(1, 7), (2, 8), (3, 9)] := by
-  refine ⟨by decide, by decide, ?_⟩
+    (¬ ∃ rest, ([(3, 9), (2, 8), (3, 9)] ++ rest : List (Nat × Nat)).Perm [(1, 7), (2, 8), (3, 9)]) ∧
+    readPairs (kreached2 nopKern 0 0 1 0 0
+      [.k (.get (sqeWord 1 0 7)), .k .flush, .k (.consume 1), .k (.complete 0),
+       .k (.get (sqeWord 2 0 8)), .k .flush, .k (.consume 1), .k (.complete 0),
+       .k (.get (sqeWord 3 0 9)), .k .flush, .k (.consume 1), .k (.complete 0),
+       .reapBegin, .k (.flushOvf 1), .reapRead, .k .reap, .k (.flushOvf 1), .k .reap, .k .reap]) =
+      [(1, 7), (2, 8), (3, 9)] := by
+  refine ⟨by decide, by decide, ?_, by decide⟩
   intro ⟨rest, hperm⟩
   have := hperm.count_eq (3, 9)
   rw [List.count_append] at this
@@ -391,34 +472,38 @@ theorem reap_reference_outlives_slot :
   have h2 : List.count ((3, 9) : Nat × Nat) [(1, 7), (2, 8), (3, 9)] = 1 := by decide
   omega
 
-/-- the same operations with the read at return time (the atomic `reap`): (1, 7), (2, 8), (3, 9) -/
+/-- non-vacuity of the split theorems: a reference held across a kernel flush attempt and a completion; the
+hypotheses of `one_cqe_per_sqe_split`'s second half hold at the end -/
 example :
-    reapedPairs (krun2 nopKern .fixed ⟨kinit 0 0 1 0 0, none⟩
+    let s := kreached2 nopKern 0 0 1 4294967295 4294967295
       [.k (.get (sqeWord 1 0 7)), .k .flush, .k (.consume 1), .k (.complete 0),
        .k (.get (sqeWord 2 0 8)), .k .flush, .k (.consume 1), .k (.complete 0),
-       .k (.get (sqeWord 3 0 9)), .k .flush, .k (.consume 1), .k (.complete 0),
-       .reapBegin, .reapRead, .k (.flushOvf 1), .k .reap, .k .reap, .k .reap]).1.k = [(1, 7), (2, 8), (3, 9)] := by
-  decide
+       .k (.get (sqeWord 3 0 9)), .k .flush, .k (.consume 1),
+       .reapBegin, .k (.complete 0), .k (.flushOvf 1), .reapRead, .k .reap, .k (.flushOvf 1), .k .reap, .k .reap]
+    s.readLog = s.k.ring.reaped ∧ s.held = none ∧ readPairs s = [(1, 7), (2, 8), (3, 9)] ∧
+    (s.k.ring.sqKHead = s.k.ring.sqKTail ∧ s.k.pend = [] ∧ s.k.ovf = []) ∧
+    (step .fixed s.k.ring .reap).2 = .noCqe := by decide
 
 /-! non-vacuity of the contract theorems: concrete interleavings on the concrete kernel `nopKern` (entry =
 `sqeWord user_data flags len`, the "system call" returns `len`, negative = failure) -/
 
 /-- both rings cross the 32-bit wrap; completions out of submission order (request 1 before 0); an IOSQE_IO_LINK
 chain 2→3 whose head fails (res -1): 3 cannot complete before 2 and is then cancelled (-ECANCELED = 4294967171);
-the completion ring (2 entries) is full: two completions go to the overflow list and are flushed later, in order -/
+the completion ring (2 entries) is full: two completions go to the overflow list and are flushed later, in order
+(a flush finds room only after the NEXT `get_next_cqe` call has released the slot of the entry reaped before) -/
 example :
     (krun nopKern .fixed (kinit 0 1 1 4294967295 4294967295)
       [.get (sqeWord 1 0 7), .get (sqeWord 2 0 8), .flush, .consume 2, .complete 1,
        .get (sqeWord 3 4 4294967295), .get (sqeWord 4 0 9), .flush, .consume 2,
        .complete 2, .complete 1, .complete 1, .complete 0, .flushOvf 5, .reap, .flushOvf 5, .reap, .flushOvf 5,
-       .reap, .reap, .reap]).2 =
+       .reap, .flushOvf 5, .reap, .reap]).2 =
     [.app (.slot 1), .app (.slot 0), .app (.flushed 2),
      .consumed [⟨0, ⟨1, sqeWord 1 0 7⟩, none⟩, ⟨1, ⟨0, sqeWord 2 0 8⟩, none⟩], .completed 1 (cqeWord 2 8) true,
      .app (.slot 1), .app (.slot 0), .app (.flushed 2),
      .consumed [⟨2, ⟨1, sqeWord 3 4 4294967295⟩, none⟩, ⟨3, ⟨0, sqeWord 4 0 9⟩, some 2⟩],
      .notReady, .completed 2 (cqeWord 3 4294967295) true, .completed 3 (cqeWord 4 ECANCELED) false,
-     .completed 0 (cqeWord 1 7) false, .flushedOvf 0, .app (.cqe (cqeWord 2 8)), .flushedOvf 1,
-     .app (.cqe (cqeWord 3 4294967295)), .flushedOvf 1, .app (.cqe (cqeWord 4 ECANCELED)),
+     .completed 0 (cqeWord 1 7) false, .flushedOvf 0, .app (.cqe (cqeWord 2 8)), .flushedOvf 0,
+     .app (.cqe (cqeWord 3 4294967295)), .flushedOvf 1, .app (.cqe (cqeWord 4 ECANCELED)), .flushedOvf 1,
      .app (.cqe (cqeWord 1 7)), .app .noCqe] := by decide
 
 /-- the hypotheses of `cqe_complete_at_quiescence` / `link_chain_order` are met by that run: the kernel is quiet,
@@ -428,7 +513,7 @@ example :
       [.get (sqeWord 1 0 7), .get (sqeWord 2 0 8), .flush, .consume 2, .complete 1,
        .get (sqeWord 3 4 4294967295), .get (sqeWord 4 0 9), .flush, .consume 2,
        .complete 2, .complete 1, .complete 1, .complete 0, .flushOvf 5, .reap, .flushOvf 5, .reap, .flushOvf 5,
-       .reap, .reap, .reap]
+       .reap, .flushOvf 5, .reap, .reap]
     (s.ring.sqKHead = s.ring.sqKTail ∧ s.pend = [] ∧ s.ovf = []) ∧ (step .fixed s.ring .reap).2 = .noCqe ∧
     s.deps = [none, none, none, some 2] ∧ reapedSeq s = [1, 2, 3, 0] ∧
     reapedPairs s = [(2, 8), (3, 4294967295), (4, 4294967171), (1, 7)] := by decide
